@@ -206,21 +206,39 @@ Definition sres_z (r : sres) : Z := match r with RInt z => z | _ => 0 end.
 Definition mrec_infos (gen : list (name * Z)) (m : list (name * list (name * sres))) : dict :=
   inject gen ++ map (fun kr => (fst kr, VDict (map (fun nr => (fst nr, VInt (sres_z (snd nr)))) (snd kr)))) m.
 
+(* the way the algorithms use them: for each generation, logbook.record(id=g, **mstats.compile(pop_g)) *)
+Fixpoint run_gens (m : mstats (list Z) Z sres) (idname : name) (g : nat) (pops : list (list (list Z))) (s : state)
+  : state * list op :=
+  match pops with
+  | [] => (s, [])
+  | data :: r =>
+      let o := ORecord (mrec_infos [(idname, Z.of_nat g)] (ms_compile m data)) in
+      let (s', ops) := run_gens m idname (S g) r (fst (step s o)) in
+      (s', o :: ops)
+  end.
+
+Definition uni_ok (uni : option shape) (ops : list op) : bool :=
+  match uni with Some sh => uniformb sh ops | None => true end.
+
+(* uni: the chapter-name tree when the harness generated the history as "uniform"; check then also
+   establishes that the history meets the hypothesis of the theorems (uniformb, proved sound) *)
 Inductive case :=
-| CHist (ops : list op) (obs : list (out * ot)) (fin : lb)
-| CTrie (alpha : list op) (items : list (nat * nat * out * ot))
+| CHist (uni : option shape) (ops : list op) (obs : list (out * ot)) (fin : lb)
+| CTrie (uni : option shape) (alpha : list op) (items : list (nat * nat * out * ot))
 | CStats (key : keyf) (ops : list sop) (obs : list (list (name * sres))) (fields : list name)
 | CMulti (keys : list (name * keyf)) (ops : list sop)
-         (obs : list (list (name * list (name * sres)))) (fields : list (name * list name)).
+         (obs : list (list (name * list (name * sres)))) (fields : list (name * list name))
+| CStatsLog (idname : name) (keys : list (name * keyf)) (regs : list sop) (pops : list (list (list Z))) (fin : lb).
 
 Definition check (c : case) : bool :=
   match c with
-  | CHist ops obs fin =>
+  | CHist uni ops obs fin =>
+      uni_ok uni ops &&
       match check_hist init_state ops obs with
       | Some s => lb_eqb (st_lb s) fin
       | None => false
       end
-  | CTrie alpha items => check_items alpha [init_state] items
+  | CTrie uni alpha items => uni_ok uni alpha && check_items alpha [init_state] items
   | CStats key ops obs fields =>
       let (s, o) := run_stats (new_stats (apply_key key)) ops in
       list_eqb srec_eqb o obs && list_eqb Z.eqb (s_fields s) fields
@@ -228,4 +246,8 @@ Definition check (c : case) : bool :=
       let (m, o) := run_multi (map (fun kk => (fst kk, new_stats (apply_key (snd kk)))) keys) ops in
       list_eqb mrec_eqb o obs &&
       list_eqb (pair_eqb Z.eqb (list_eqb Z.eqb)) (sort_key (map (fun ns => (fst ns, s_fields (snd ns))) m)) (sort_key fields)
+  | CStatsLog idname keys regs pops fin =>
+      let (m, _) := run_multi (map (fun kk => (fst kk, new_stats (apply_key (snd kk)))) keys) regs in
+      let (s, ops) := run_gens m idname 0 pops init_state in
+      lb_eqb (st_lb s) fin && uniformb (Sh (map (fun kk => (fst kk, Sh [])) keys)) ops
   end.
